@@ -242,7 +242,7 @@ func (x *c04Gen) goal(depth int) *c04Goal {
 			x.nextI++
 			return &c04Goal{Op: "catch", N: 2, Kind: kind, V: int(v[len(v)-1] - '0'), I: x.nextI, T: x.catcher(), Args: []*c04Goal{{Op: "true"}, x.goal(depth - 1)}, U: map[bool]int{true: 1, false: 0}[x.inBody]}
 		}
-		return &c04Goal{Op: "catch", T: x.catcher(), Args: []*c04Goal{x.scoped(depth - 1), x.goal(depth - 1)}}
+		return &c04Goal{Op: "catch", T: x.catcher(), Args: []*c04Goal{x.scoped(depth - 1), x.scoped(depth - 1)}}
 	}
 	if x.minU < x.nPreds {
 		u := x.minU + g.Choose(x.nPreds-x.minU)
